@@ -236,7 +236,7 @@ def run(ctx):
         ctx.ob("C19.P.arguments-of-every-segment", f.key, "closure: union_in_place(state, segment.arguments.walk())", okc, "fold closure")
     f = ctx.fn("<proc_macro2::Ident as %s>::%s" % (TP[0], TP[1]))
     if f:
-        rs = [e for _, e in ctx.ret_exprs(f)]
+        rs = ctx.ret_values(f)
         ok = len(rs) == 1 and "collect(" in rs[0] and "filter(" in rs[0] and "iter(a3)" in rs[0].replace("std::collections::hash::set::HashSet::<T, S>::", "")
         ctx.ob("C19.G.result-drawn-from-queried-set", f.key, "type_set.iter().filter(..).collect()", ok, "%s" % [r[:200] for r in rs])
     # qself only for Declare
@@ -263,7 +263,7 @@ def run(ctx):
     f = ctx.fn("darling_core::usage::type_params::union_in_place")
     if f:
         ext = ctx.find_calls(f, r"Extend<.*>>::extend")
-        rs = [e for _, e in ctx.ret_exprs(f)]
+        rs = ctx.ret_values(f)
         ctx.ob("C19.P.union-in-place", f.key, "left.extend(right); left", len(ext) == 1 and rs == ["a1"], "%s" % rs)
     # ---------------------------------------------------------------- bounds
     f = ctx.fn("darling_core::codegen::outer_from_impl::compute_impl_bounds")
@@ -274,11 +274,11 @@ def run(ctx):
             ctx.requires("C19.G.bound-only-on-used-type-params", f, b, "typ.bounds.push(bound)", [r"discr\(.*\)=Type$", r"HashSet::<T, S(, A)?>::contains\(a3, .*\.ident\)=True"])
             tgt = ctx.expr(f, t["args"][0])
             ctx.ob("C19.G.bound-pushed-on-that-param", f.key, "target", tgt.endswith("as Type).0.bounds"), tgt[:140])
-        rs = [e for _, e in ctx.ret_exprs(f)]
+        rs = ctx.ret_values(f)
         ctx.ob("C19.G.generics-otherwise-unchanged", f.key, "return generics", rs == ["a2"] or all(e == "a2" for e in rs), "%s" % rs)
     f = ctx.fn("darling_core::codegen::trait_impl::TraitImpl::<'a>::used_type_params")
     if f:
-        cl = {c.key.rsplit("::", 1)[-1]: [e for _, e in ctx.ret_exprs(c)] for c in ctx.closures_of(f)}
+        cl = {c.key.rsplit("::", 1)[-1]: ctx.ret_values(c) for c in ctx.closures_of(f)}
         ok = cl.get("{closure#0}") == ["!a2.skip"] and cl.get("{closure#1}") == ["!a2.skip"]
         ctx.ob("C19.G.skipped-fields-and-variants-ignored", f.key, "|f| !f.skip, |v| !v.skip", ok, "%s" % cl)
     f = ctx.fn("darling_core::codegen::trait_impl::TraitImpl::<'a>::type_params_in_fields")
